@@ -1101,7 +1101,7 @@ class _Builder:
                     changed = True
             if not changed:
                 break
-        for _ in range(12):
+        for _ in range(12 if getattr(self, 'unroll', True) else 0):
             try:
                 if not self.unroll_one(self.snapshot()):
                     break
@@ -1114,10 +1114,11 @@ class _Builder:
         return b
 
 
-def inline_body(facts, body, keep=lambda n: False, depth=3, adaptors=True, known_ids=frozenset(), combinators=False):
+def inline_body(facts, body, keep=lambda n: False, depth=3, adaptors=True, known_ids=frozenset(), combinators=False, unroll=True):
     """A new Body equal to `body` with crate-local callees (not kept), visible closures and loop adaptors
     expanded.  Returns `body` itself when nothing was expanded."""
     bld = _Builder(facts, body, keep, depth, adaptors, known_ids, combinators)
+    bld.unroll = unroll
     out = bld.run()
     if not bld.inlined:
         body.inlined, body.origin, body.inlined_ids = [], {}, []
